@@ -491,6 +491,16 @@ theorem moveMerges_consistent (s : MState) (hs : Consistent s) (g' : Grid.State 
         (Covered (rectsOf s'.mmap) ((a : Int), (b : Int)) → cell'.val.val = 0) ∧
         (¬ Covered (rectsOf s'.mmap) ((a : Int), (b : Int)) → cell'.val.val = cell.val.val)) := by
   have hne : ∀ q ∈ rectsOf s.mmap, q.Nonempty := fun q hq => (hs.inTable q hq).nonempty
+  -- the append shortcut is a special case of "every rectangle ends before the edit"
+  have happ : ((if ins then n else -n) > 0 ∧
+      start + (if ins then n else -n) = (if rows then g'.numRows else g'.numCols)) →
+      ∀ q ∈ rectsOf s.mmap, (if rows then q.r1 else q.c1) < start := by
+    intro ⟨h1, h2⟩ q hq
+    obtain ⟨i1, i2, i3, i4, i5, i6⟩ := hs.inTable q hq
+    obtain ⟨e1, e2, ⟨e3, e3'⟩, e4, e5⟩ := he
+    cases ins
+    · simp only [Bool.false_eq_true, if_false] at h1; omega
+    · cases rows <;> simp only [if_true, Bool.false_eq_true, if_false] at h2 e4 e5 ⊢ <;> omega
   by_cases hall : ∀ q ∈ rectsOf s.mmap, (if rows then q.r1 else q.c1) < start
   · refine ⟨{ grid := g', mmap := s.mmap }, ?_, hsafe hall, ?_, rfl, rfl, ?_⟩
     rotate_left 2
@@ -504,7 +514,7 @@ theorem moveMerges_consistent (s : MState) (hs : Consistent s) (g' : Grid.State 
         intro q hq
         have := hall q hq
         simpa [Rct.r1, Rct.c1] using this
-      simp only [moveMerges, this, if_true]
+      simp only [moveMerges, this, if_true, ite_self]
     · symm
       apply filterMap_self
       intro q hq
@@ -542,7 +552,9 @@ theorem moveMerges_consistent (s : MState) (hs : Consistent s) (g' : Grid.State 
     have hr : rectsOf s'.mmap = (rectsOf s.mmap).filterMap (shiftRectSpec rows ins start n) := by
       rw [g3]; simp [rectsOf, anchorsOf]
     refine ⟨s', ?_, g2, hr, g4, g5, ?_⟩
-    · simp only [moveMerges, hcond, Bool.false_eq_true, if_false, remerge_eq, hfun]
+    · have hnapp : ¬ ((if ins then n else -n) > 0 ∧
+          start + (if ins then n else -n) = (if rows then g'.numRows else g'.numCols)) := fun h => hall (happ h)
+      simp only [moveMerges, hnapp, hcond, Bool.false_eq_true, if_false, remerge_eq, hfun]
       exact g1
     · intro a b cell hc
       have hc0 : ∃ cell0, cellAt (unmerge g'.data) a b = some cell0 ∧ cell0.val.val = cell.val.val := by
